@@ -144,6 +144,7 @@ func symTree(paths []string) *verifTree {
 // model state (symbolic run)
 
 var verifOpenFault bool
+var verifCopyReadFault bool
 var verifFS *verifTree
 var verifHandles map[*os.File]int
 var verifOSCalls []string // every path handed to the operating system
@@ -485,6 +486,11 @@ func verifStubIOCopy(dst io.Writer, src io.Reader) (int64, error) {
 		if !ok {
 			return 0, os.ErrClosed
 		}
+		if verifCopyReadFault {
+			// the source opens fine but cannot be read (e.g. a symlink to
+			// a directory): the OS reports the failing path
+			return 0, &os.PathError{Op: "read", Path: verifModelRoot + verifFS.paths[si], Err: syscall.EISDIR}
+		}
 		verifFS.content[di] = verifFS.content[si]
 		return verifSize(verifFS.content[si]), nil
 	case *verifBodyReader:
@@ -527,6 +533,7 @@ func verifMaterialise(t *verifTree) string {
 		verifHandles = map[*os.File]int{}
 		verifOSCalls = nil
 		verifOpenFault = false
+		verifCopyReadFault = false
 		return verifModelRoot
 	}
 	dir, err := ioutil.TempDir("", "verif-dav-")
@@ -557,6 +564,10 @@ func verifCleanup() {
 		l.Close()
 	}
 	verifListeners = nil
+	for _, d := range verifExtraDirs {
+		os.RemoveAll(d)
+	}
+	verifExtraDirs = nil
 	if verifNativeRoot != "" {
 		os.RemoveAll(verifNativeRoot)
 		verifNativeRoot = ""
@@ -606,3 +617,17 @@ func verifMakeUnopenable(path string) bool {
 }
 
 var verifListeners []net.Listener
+
+// verifMakeUnreadable (native run): replaces the file by a symbolic link
+// to a directory outside the served root: it opens but cannot be read.
+func verifMakeUnreadable(path string) bool {
+	dir, err := ioutil.TempDir("", "verif-unreadable-")
+	if err != nil {
+		return false
+	}
+	verifExtraDirs = append(verifExtraDirs, dir)
+	os.Remove(path)
+	return os.Symlink(dir, path) == nil
+}
+
+var verifExtraDirs []string
